@@ -1,0 +1,50 @@
+#pragma once
+
+///
+/// \brief verification hooks (compiled in only with -DNANO_VERIF): event tracing at the synchronization points
+///     of the thread pool, randomized schedule perturbation, capping of the default number of threads and
+///     reproducible seeding of otherwise non-deterministic random number generators.
+///
+/// NB: without -DNANO_VERIF this header only defines empty macros.
+///
+#ifdef NANO_VERIF
+    #include <atomic>
+    #include <cstddef>
+    #include <cstdint>
+    #include <nano/arch.h>
+
+namespace nano::verif
+{
+using sink_t = void (*)(uint64_t seq, const char* event, int64_t a, int64_t b);
+
+NANO_PUBLIC std::atomic<sink_t>& sink();
+NANO_PUBLIC std::atomic<uint64_t>& sequence();
+
+/// \brief randomly yield/sleep at the given schedule point (enabled by set_sched or the NANO_VERIF_SCHED env variable).
+NANO_PUBLIC void yield_point(int id);
+NANO_PUBLIC void set_sched(int64_t seed); ///< negative seed disables schedule perturbation
+
+/// \brief cap of the number of threads of a thread pool (0 = no cap; initialized from NANO_VERIF_MAX_THREADS).
+NANO_PUBLIC size_t max_threads();
+NANO_PUBLIC void   set_max_threads(size_t threads);
+
+/// \brief seed to use for random number generators constructed without a seed (negative = std::random_device;
+///     initialized from NANO_VERIF_SEED).
+NANO_PUBLIC int64_t default_seed();
+NANO_PUBLIC void    set_default_seed(int64_t seed);
+
+inline void emit(const char* event, int64_t a = -1, int64_t b = -1)
+{
+    if (auto* const fsink = sink().load(std::memory_order_acquire); fsink != nullptr)
+    {
+        fsink(sequence().fetch_add(1, std::memory_order_seq_cst), event, a, b);
+    }
+}
+} // namespace nano::verif
+
+    #define NANO_VERIF_EMIT(...) ::nano::verif::emit(__VA_ARGS__)
+    #define NANO_VERIF_YIELD(id) ::nano::verif::yield_point(id)
+#else
+    #define NANO_VERIF_EMIT(...)
+    #define NANO_VERIF_YIELD(id)
+#endif
